@@ -21,6 +21,7 @@ TODO:
 */
 
 import (
+	"io/ioutil"
 	"context"
 	"encoding/hex"
 	"io"
@@ -127,7 +128,7 @@ func NewController(workingDirectory riofs.FS, addr api.WarehouseLocation) (*Cont
 			_, e2 := os.Stat(filepath.Join(p, "HEAD"))
 			return e == nil && st.IsDir() && e2 == nil
 		}
-		if whCtrl.protocol == protocolFile && (isRepo(sanitizedAddr) || isRepo(filepath.Join(sanitizedAddr, ".git"))) {
+		if whCtrl.protocol == protocolFile && isRepo(localGitDir(sanitizedAddr)) {
 			// A local repository is read from its object store, whatever its refs say: one with a detached HEAD
 			//  or with no branch at all fails the ls-remote ping and still holds every commit it ever held.
 			err = whCtrl.setCacheStorage()
@@ -193,6 +194,36 @@ func (c *Controller) GetTree(hash string) (*object.Tree, error) {
 	return tree, nil
 }
 
+// localGitDir finds where the repository of a local address keeps its objects: the address itself (a bare
+//  repository), its ".git" directory (a non-bare one), or what a ".git" *file* points at ("gitdir: <path>", as
+//  `git worktree add` and `--separate-git-dir` write it), following a "commondir" file of a linked working tree.
+func localGitDir(addr string) string {
+	dotGit := filepath.Join(addr, ".git")
+	st, err := os.Stat(dotGit)
+	if err != nil {
+		return addr
+	}
+	if st.IsDir() {
+		return dotGit
+	}
+	b, err := ioutil.ReadFile(dotGit)
+	if err != nil || !strings.HasPrefix(string(b), "gitdir: ") {
+		return addr
+	}
+	dir := strings.TrimSpace(strings.TrimPrefix(string(b), "gitdir: "))
+	if !filepath.IsAbs(dir) {
+		dir = filepath.Join(addr, dir)
+	}
+	if c, err := ioutil.ReadFile(filepath.Join(dir, "commondir")); err == nil {
+		common := strings.TrimSpace(string(c))
+		if !filepath.IsAbs(common) {
+			common = filepath.Join(dir, common)
+		}
+		dir = common
+	}
+	return dir
+}
+
 /*
 	This sets the cache storage for the controller.
 	If the repository is local then we can just open the repository. No cache is needed.
@@ -208,11 +239,7 @@ func (c *Controller) setCacheStorage() error {
 		if !filepath.IsAbs(c.sanitizedAddr) {
 			return Errorf(rio.ErrUsage, "remote is not an absolute path")
 		}
-		gitDir := c.sanitizedAddr
-		if st, err := os.Stat(filepath.Join(gitDir, ".git")); err == nil && st.IsDir() {
-			gitDir = filepath.Join(gitDir, ".git") // a non-bare repository: its object store sits in its .git
-		}
-		c.store = filesystem.NewStorage(srcd_osfs.New(gitDir), cache.NewObjectLRUDefault())
+		c.store = filesystem.NewStorage(srcd_osfs.New(localGitDir(c.sanitizedAddr)), cache.NewObjectLRUDefault())
 		return nil
 	}
 	c.allowClone = true // non-local repositories are allowed to clone
